@@ -12,7 +12,7 @@ use std::{
 };
 
 use super::{
-    c04::{base_pair, typed_cfg},
+    c04::{base_pair, carrier_cfg as typed_cfg},
     c12::{AcctM, AcctM2, AcctM2Client, AcctMClient, AcctMServer, AcctMServerRefMut, AcctMServerSharedMut, Ev, Flavour, Gate, Obj},
 };
 use crate::{
